@@ -12,6 +12,8 @@ distinct within the case, so no two timers of a case ever fall on the same insta
   step = ["sleep", d] | ["add", x, j, a] | ["rem", x, j] | ["wait", x] | ["cancel", x] | ["cancelself"]
        | ["create", c] | ["claim", n] | ["raise"] | ["ret", v]
        | ["call", x]      service.call("pyscript", <service x>, blocking=True), then event "r"
+       | ["exec", d]      task.executor(<native function blocking in its thread>); the thread is released after d ticks
+   "ops": [["reload_entry"|"reload_file", ticks], ...]   the driver reloads the pyscript config entry / the script file at that instant
 A fault calls the real Function.user_task_cancel(task i) `off` ticks after task i reached the given point (marker of step k
 / begin of callback j running as done-callback of task i).
 
@@ -24,9 +26,51 @@ import asyncio
 import json
 import sys
 
-from vh.hassenv import START, PyscriptEnv, run_virtual, settle, sleep_until
+import functools
+import threading
+
+from vh.hassenv import START, PyscriptEnv, VLoop, run_virtual, settle, sleep_until
 
 TICK = 2.0 ** -12
+
+
+class VLoop2(VLoop):
+    """VLoop whose clock keeps running while a `pv_block` executor job waits for its release (such a job stands for a
+    thread that is busy for a virtual duration); from its release on it is counted like any real job, so that the loop
+    polls in real time until the thread has actually returned."""
+
+    def run_in_executor(self, executor, func, *args):
+        f = func
+        while isinstance(f, functools.partial):
+            f = f.func
+        if getattr(f, "__name__", "") != "pv_block":
+            return super().run_in_executor(executor, func, *args)
+        fut = asyncio.SelectorEventLoop.run_in_executor(self, executor, func, *args)
+
+        def done(_f):
+            self._v_executor_jobs -= 1          # balanced by release_event()
+
+        fut.add_done_callback(done)
+        return fut
+
+
+def run_virtual2(coro):
+    loop = VLoop2()
+    asyncio.set_event_loop(loop)
+    try:
+        return loop.run_until_complete(coro)
+    finally:
+        try:
+            pending = [t for t in asyncio.all_tasks(loop) if not t.done()]
+            for t in pending:
+                t.cancel()
+            if pending:
+                loop.run_until_complete(asyncio.gather(*pending, return_exceptions=True))
+            loop.run_until_complete(loop.shutdown_asyncgens())
+        except Exception:  # pylint: disable=broad-except
+            pass
+        asyncio.set_event_loop(None)
+        loop.close()
 
 
 def secs(ticks):
@@ -52,7 +96,7 @@ def _cb_lines(case):
                 ""]
         for j, cb in enumerate(case["cbs"]):
             out.append(f"cbo{j} = CbK({j}, {secs(cb['sleep']) if cb['sleep'] else 0}, {bool(cb['raise'])})")
-            out.append(f"cb{j} = cbo{j}.run")
+            out.append(f"cb{j} = CB.setdefault({j}, cbo{j}.run)")
         out.append("")
     else:
         for j, cb in enumerate(case["cbs"]):
@@ -63,6 +107,7 @@ def _cb_lines(case):
                 out.append(f"    event.fire('pv_e', ev='ce', cb={j})")
             if cb["raise"]:
                 out.append("    raise ValueError('callback')")
+            out.append(f"cb{j} = CB.setdefault({j}, cb{j})")
             out.append("")
     return out
 
@@ -81,6 +126,9 @@ def _step_lines(case, i, ind):
         op = st[0]
         if op == "sleep":
             out.append(f"{ind}task.sleep({secs(st[1])})")
+        elif op == "exec":
+            # a plain function in a worker thread; the harness releases the thread st[1] virtual ticks after this marker
+            out.append(f"{ind}task.executor(pv_block, hass.data['pv_EV'][({i}, {k})])")
         elif op == "add":
             out.append(f"{ind}task.add_done_callback(T[{st[1]}], cb{st[2]}, {st[3]})")
         elif op == "rem":
@@ -158,8 +206,12 @@ def make_scripts(case):
     for i, tk in enumerate(case["tasks"]):
         key = ("g", tk["fn"]) if tk.get("fn") is not None else ("t", i)
         units.setdefault(key, []).append(i)
-    main = ["T = {}", ""] + _cb_lines(case)
-    shut = ["T = {}", ""] + _cb_lines(case)
+    # the task table and the callback callables live in hass.data (hass_is_global): reloading a file or the config entry
+    # re-executes the file, but runs in flight and later runs must keep talking about the same tasks / callables
+    head = ["T = hass.data.setdefault('pv_T', {})", "CB = hass.data.setdefault('pv_CB', {})", "",
+            "@pyscript_compile", "def pv_block(ev):", "    ev.wait(30)", "    return 1", ""]
+    main = head + _cb_lines(case)
+    shut = head + _cb_lines(case)
     has_shut = False
     for members in units.values():
         if case["tasks"][members[0]]["kind"] == "shut":
@@ -201,9 +253,18 @@ async def run_case(case):
     events = []
     errs = []
     files = make_scripts(case)
-    async with PyscriptEnv(files=files, legacy=legacy) as env:
+    async with PyscriptEnv(files=files, legacy=legacy, hass_is_global=True) as env:
         hass = env.hass
         loop = asyncio.get_running_loop()
+        hass.data["pv_EV"] = {(i, k): threading.Event() for i, tk in enumerate(case["tasks"]) for k, st in enumerate(tk["steps"])
+                              if st[0] == "exec"}
+        released = set()
+
+        def release_event(key):
+            if key not in released:
+                released.add(key)
+                loop._v_executor_jobs += 1      # pylint: disable=protected-access
+                hass.data["pv_EV"][key].set()
         for i, tk in enumerate(case["tasks"]):
             if tk["kind"] == "st":
                 hass.states.async_set(f"pyscript.pv_v{i}", "idle")
@@ -211,32 +272,8 @@ async def run_case(case):
         gctx = GlobalContextMgr.get("file.c14")
         if gctx is None:
             raise RuntimeError("script file.c14 was not loaded: " + repr(env.log.records[-3:]))
-        tables = [gctx.global_sym_table["T"]]
-        if "c14s.py" in files:
-            gs = GlobalContextMgr.get("file.c14s")
-            if gs is None:
-                raise RuntimeError("script file.c14s was not loaded: " + repr(env.log.records[-3:]))
-            tables.append(gs.global_sym_table["T"])      # the dict of the context that is about to be reloaded
-
-        class _Table:
-            """the scripts' tables T (task number -> asyncio task) of both files"""
-
-            @staticmethod
-            def get(i, default=None):
-                for tb in tables:
-                    if i in tb:
-                        return tb[i]
-                return default
-
-            @staticmethod
-            def items():
-                return [kv for tb in tables for kv in tb.items()]
-
-            @staticmethod
-            def values():
-                return [v for tb in tables for v in tb.values()]
-
-        table = _Table
+        table = hass.data["pv_T"]
+        evs = hass.data["pv_EV"]
         base = loop.time()
         baseline_cb = set(Function.task2cb.keys())
         baseline_ctx = set(Function.task2context.keys())
@@ -301,6 +338,8 @@ async def run_case(case):
             if ev == "m":
                 events.append([t, who, "m", d["k"], snap()])
                 arm(who, ["step", d["k"]])
+                if who >= 0 and d["k"] < len(case["tasks"][who]["steps"]) and case["tasks"][who]["steps"][d["k"]][0] == "exec":
+                    loop.call_at(loop.time() + case["tasks"][who]["steps"][d["k"]][1] * TICK, release_event, (who, d["k"]))
             elif ev == "x":
                 events.append([t, who, "x", d["e"], snap()])
             elif ev == "w":
@@ -316,8 +355,18 @@ async def run_case(case):
         hass.bus.async_listen(MATCH_ALL, rec)
 
         inj = sorted((tk["at"], i) for i, tk in enumerate(case["tasks"]) if tk["kind"] not in ("create", "csvc"))
+        inj += [(at, -1 - n) for n, (_op, at) in enumerate(case.get("ops", []))]
+        inj.sort()
         for at, i in inj:
             await sleep_until(base + at * TICK)
+            if i < 0:
+                op = case["ops"][-1 - i][0]
+                if op == "reload_entry":
+                    eid = hass.config_entries.async_entries("pyscript")[0].entry_id
+                    hass.async_create_task(hass.config_entries.async_reload(eid))
+                else:
+                    hass.async_create_task(hass.services.async_call("pyscript", "reload", {"global_ctx": "file.c14"}, blocking=True))
+                continue
             tk = case["tasks"][i]
             kind = tk["kind"]
             data = {"run": i} if tk.get("fn") is not None else {}
@@ -332,6 +381,10 @@ async def run_case(case):
                 await hass.services.async_call("pyscript", fn_name(case, i), data, blocking=False)
         await sleep_until(base + case["horizon"] * TICK)
         await settle()
+        for key in list(hass.data["pv_EV"]):
+            if key not in released:             # threads of runs that were cancelled / never reached: let them go
+                released.add(key)
+                hass.data["pv_EV"][key].set()
 
         final_tasks = []
         for i in range(ntasks):
@@ -355,9 +408,18 @@ async def run_case(case):
                 names.append([-1, -1])
         names.sort()
         known = set(table.values())
+
+        def user_run(t):
+            """reloads start new trigger watchers / reaper / waiter tasks: only runs of user functions count as stray"""
+            try:
+                inner = t.get_coro().cr_frame.f_locals.get("coro")
+                qn = getattr(inner, "__qualname__", "")
+            except Exception:  # pylint: disable=broad-except
+                return True
+            return any(x in qn for x in ("do_func_call", "._call", "func_call", "do_service_call"))
         stray = (len([t for t in Function.task2cb if t not in known and t not in baseline_cb])
                  + len([t for t in Function.task2context if t not in known and t not in baseline_ctx])
-                 + len([t for t in Function.our_tasks if t not in known and t not in baseline_ours and not t.done()]))
+                 + len([t for t in Function.our_tasks if t not in known and t not in baseline_ours and not t.done() and user_run(t)]))
         final = {"tasks": final_tasks, "names": names, "stray": stray,
                  "reaper_q": Function.task_reaper_q.qsize() if Function.task_reaper_q is not None else -1}
         errs += [m[:200] for (_n, lvl, m) in env.log.records if lvl in ("ERROR", "CRITICAL") and "HARNESS" in m]
@@ -452,7 +514,7 @@ def main():
                 o["ref"] = reference_executor(case)
                 out.append(o)
             else:
-                out.append(run_virtual(run_case(case)))
+                out.append(run_virtual2(run_case(case)))
         except Exception as exc:  # pylint: disable=broad-except
             import traceback
             out.append({"events": [], "final": None, "err": ["HARNESS " + type(exc).__name__ + ": " + str(exc)[:300],
